@@ -95,6 +95,26 @@ m("C20","last-not-marked","xy/rdp_simplify.go","	mask[0] = 1\n	mask[len(mask)-1]
 m("C20","dpworker-stride-2","xy/rdp_simplify.go","			p := ls[i*stride : i*stride+stride]","			p := ls[i*2 : i*2+stride]","stride-discipline/xy.dpWorker")
 m("C20","mask-cleared","xy/rdp_simplify.go","			found++\n			mask[maxIndex] = 1","			found++\n			mask[maxIndex] = 1\n			mask[start] = 0","mask-discipline/xy.SimplifyFlatCoords/mask-stores")
 
+# ---- rules added after the first build round
+m("C08","overlaps-open-interval","bounds.go","		if b.min[i] > b2.max[i] || b.max[i] < b2.min[i] {","		if b.min[i] >= b2.max[i] || b.max[i] < b2.min[i] {","overlap-closed-intervals/(*geom.Bounds).Overlaps")
+m("C08","overlapspoint-min-only","bounds.go","		if b.min[i] > point[i] || b.max[i] < point[i] {","		if b.min[i] > point[i] {","overlap-closed-intervals/(*geom.Bounds).OverlapsPoint")
+m("C09","polygon-area-not-halved","polygon.go","	return doubleArea2(g.flatCoords, 0, g.ends, g.stride) / 2","	return doubleArea2(g.flatCoords, 0, g.ends, g.stride)","measure-delegation/(*geom.Polygon).Area")
+m("C09","mls-length-offset-1","multilinestring.go","	return length2(g.flatCoords, 0, g.ends, g.stride)","	return length2(g.flatCoords, g.stride, g.ends, g.stride)","measure-delegation/(*geom.MultiLineString).Length")
+m("C19","encoder-local-time","encoding/igc/encode.go","		t := time.Unix(int64(coord[3]), 0).UTC()","		t := time.Unix(int64(coord[3]), 0)","utc-both-sides/(*encoding/igc.Encoder).Encode")
+m("C19","decoder-local-time","encoding/igc/decode.go","	date := time.Date(p.year, time.Month(p.month), p.day, hour, minute, second, nsec, time.UTC)\n	if date.Before","	date := time.Date(p.year, time.Month(p.month), p.day, hour, minute, second, nsec, time.Local)\n	if date.Before","utc-both-sides/(*encoding/igc.parser).parseB")
+m("C01","multipoint-default-ends-off-by-one","multipoint.go","			g.ends[i] = (i + 1) * g.stride","			g.ends[i] = i * g.stride","multipoint-ends/geom.NewMultiPointFlat")
+m("C01","multipoint-coords-prevend-dropped","multipoint.go","			offset += g.stride\n		}\n		prevEnd = end","			offset += g.stride\n		}","multipoint-ends/geom.(*MultiPoint).Coords")
+m("C05","lexer-suffix-case-sensitive","encoding/wkt/lex.go","		if unicode.ToUpper(l.peek()) == 'Z' {","		if l.peek() == 'Z' {","spelling-variants/(*encoding/wkt.wktLex).keyword")
+m("C05","multipoint-bare-members-dropped","encoding/wkt/wkt.y","multipoint_point:\n	flat_coords_point\n|	flat_coords_point_with_parens","multipoint_point:\n	flat_coords_point_with_parens","spelling-variants/wkt.y/multipoint_point")
+m("C19","igc-indexrune-unchecked","encoding/igc/decode.go","			} else if i := strings.IndexRune(line, 'A'); i != -1 {","			} else if i := strings.IndexRune(line, 'A') + 0; i != -2 {","index-sentinel-checked")
+m("C06","syntaxerror-no-sentinel-test","encoding/wkt/lex_errors.go","	lineEnd := strings.IndexRune(e.wkt[e.lineStart:], '\\n')\n	if lineEnd == -1 {\n		lineEnd = len(e.wkt)\n	} else {\n		lineEnd += e.lineStart\n	}","	lineEnd := strings.IndexRune(e.wkt[e.lineStart:], '\\n') + e.lineStart\n	if lineEnd < e.lineStart {\n		lineEnd = len(e.wkt)\n	}","index-sentinel-checked")
+m("C13","sorting-swap-xy-only","sorting/sorting.go","	for k := range s.stride {\n		s.coords[i*s.stride+k], s.coords[j*s.stride+k] = s.coords[j*s.stride+k], s.coords[i*s.stride+k]","	for k := range 2 {\n		s.coords[i*s.stride+k], s.coords[j*s.stride+k] = s.coords[j*s.stride+k], s.coords[i*s.stride+k]","whole-coordinates-carried/(sorting.FlatCoord).Swap")
+m("C20","rdp-upper-clamp-dropped","xy/rdp_simplify.go","		if t > 1 {\n			x = b[0]\n			y = b[1]\n		} else if t > 0 {","		if t > 0 {","segment-distance-clamped/xy.distanceFromSegmentSquared")
+m("C13","revert-dedup-dispatch","xy/convex_hull.go","	if len(reducedPts)/calc.stride == 1 {\n		return geom.NewPointFlat(calc.layout, reducedPts)\n	}\n	if len(reducedPts)/calc.stride == 2 {\n		return geom.NewLineStringFlat(calc.layout, reducedPts)\n	}","	if len(calc.inputPts)/calc.stride == 1 {\n		return geom.NewPointFlat(calc.layout, calc.inputPts)\n	}\n	if len(calc.inputPts)/calc.stride == 2 {\n		return geom.NewLineStringFlat(calc.layout, calc.inputPts)\n	}","graham-scan-precondition")
+m("C14","zero-area-tolerance","xy/area_centroid.go","	if math.Abs(calc.areasum2) > 0.0 {","	if math.Abs(calc.areasum2) > 1e-12 {","zero-area-fallback-exact")
+m("C11","second-crossing-site","xy/internal/raycrossing/ray-crossing-counter.go","	// check if the point is equal to the current ring vertex","	if p1[0] > counter.p[0] && p2[0] > counter.p[0] && (p1[1] >= counter.p[1]) != (p2[1] >= counter.p[1]) {\n		counter.crossingCount++\n		return\n	}\n\n	// check if the point is equal to the current ring vertex","crossing-convention")
+m("C08","newbounds-one-array","bounds.go","	minValue, maxValue := make(Coord, stride), make(Coord, stride)","	both := make(Coord, 2*stride)\n	minValue, maxValue := both[:stride], both[stride:]","min-max-distinct-storage/geom.NewBounds")
+
 def main():
     root = "/verif/mutants"
     import glob
